@@ -3,7 +3,7 @@
     correspondence run ties to /repo; [spec_valid], [rule_ok] are the specification side (C05/Spec.v). *)
 From V Require Import Base.Util Gql.Ast C05.Model C05.Spec C05.SpecExamples C05.Witness
      C05.Proofs C05.Proofs2 C05.Proofs3 C05.Proofs4 C05.Proofs5 C05.Proofs6 C05.Proofs7 C05.Proofs8
-     C05.Proofs9 C05.Proofs10 C05.Proofs11 C05.Proofs12.
+     C05.Proofs9 C05.Proofs10 C05.Proofs11 C05.Proofs12 C05.Proofs13.
 
 (** no false alarm: a document valid under the specification gets no diagnostic *)
 Theorem C05_complete : forall doc, spec_valid doc = true -> check_doc doc = [].
@@ -16,23 +16,21 @@ Theorem C05_complete_extra_default_accepted :
 Proof. exact extra_default_accepted. Qed.
 Print Assumptions C05_complete_extra_default_accepted.
 
-(** every implemented rule is enforced: no diagnostics => the rule is respected (one rule, directive self-reference,
-    in the scope the implementation gives it, see the refutation) *)
+(** every implemented rule is enforced, in the specification's reading: no diagnostics => the rule is respected.
+    The only premise is that type names and directive names are unique (the specification's own premise). *)
 Theorem C05_sound : forall doc,
-  check_doc doc = [] -> unique_names doc = true -> ok_app_arg_unique doc = true ->
-  forall r, rule_ok_impl r doc = true.
+  check_doc doc = [] -> unique_names doc = true -> forall r, rule_ok r doc = true.
 Proof. exact sound_all. Qed.
 Print Assumptions C05_sound.
 
-(** exactness: on well-formed documents (unique type and directive names, no application naming an argument twice
-    or written with empty parentheses) the checker is silent exactly when the document respects every rule in the
-    implementation's reading *)
+(** exactness: on well-formed documents (unique type and directive names, no application written with empty
+    parentheses) the checker is silent exactly when the document respects every rule *)
 Theorem C05_exact : forall doc, wf_doc doc = true ->
-  (check_doc doc = [] <-> forall r, rule_ok_impl r doc = true).
+  (check_doc doc = [] <-> forall r, rule_ok r doc = true).
 Proof.
-  intros doc Hwf. unfold wf_doc in Hwf. rewrite !andb_true_iff in Hwf. destruct Hwf as [[Hu Hau] Hne]. split.
+  intros doc Hwf. unfold wf_doc in Hwf. rewrite !andb_true_iff in Hwf. destruct Hwf as [Hu Hne]. split.
   - intros H. apply sound_all; assumption.
-  - intros HR. apply (complete_gen false); assumption.
+  - intros HR. apply complete_rules; assumption.
 Qed.
 Print Assumptions C05_exact.
 
@@ -42,29 +40,36 @@ Theorem C05_sound_local : forall doc,
   ok_reserved doc = true /\ ok_dup_field doc = true /\ ok_dup_arg doc = true /\ ok_dup_input_field doc = true /\
   ok_dup_enum_value doc = true /\ ok_dup_union_member doc = true /\ ok_input_in_output doc = true /\
   ok_output_in_input doc = true /\ ok_directive_unknown doc = true /\ ok_directive_misplaced doc = true /\
-  ok_directive_repeated doc = true.
+  ok_directive_repeated doc = true /\ ok_directive_args doc = true.
 Proof.
   intros doc H. repeat split.
   - exact (sound_reserved doc H). - exact (sound_dup_field doc H). - exact (sound_dup_arg doc H).
   - exact (sound_dup_input_field doc H). - exact (sound_dup_enum_value doc H). - exact (sound_dup_union_member doc H).
   - exact (sound_input_in_output doc H). - exact (sound_output_in_input doc H). - exact (sound_directive_unknown doc H).
-  - exact (sound_directive_misplaced doc H). - exact (sound_directive_repeated doc H).
+  - exact (sound_directive_misplaced doc H). - exact (sound_directive_repeated doc H). - exact (sound_directive_args doc H).
 Qed.
 Print Assumptions C05_sound_local.
 
-Definition C05_sound_full : Prop :=
-  forall doc, check_doc doc = [] -> unique_names doc = true -> ok_app_arg_unique doc = true ->
-  forall r, rule_ok r doc = true.
-(** Int literals outside the signed 32-bit range are part of the enforced rule now (556742c): the former witness is reported *)
+(** the three former deviations, now positive (fe470c6 above; 556742c, 2bc0346, 7d19234 here): the former witnesses
+    violate the rule and are reported *)
 Theorem C05_sound_directive_args_int_range_rejected :
   rule_ok RDirectiveArgs Witness.w_int_range = false /\ check_doc Witness.w_int_range <> [].
 Proof. destruct int_range_rejected as [A [B C]]. split; [exact A | rewrite B; exact C]. Qed.
 Print Assumptions C05_sound_directive_args_int_range_rejected.
-Theorem C05_sound_directive_recursive_nested_refuted :
-  exists doc, check_doc doc = [] /\ unique_names doc = true /\ ok_app_arg_unique doc = true /\
-              rule_ok RDirectiveRecursive doc = false.
-Proof. exists w_nested. destruct nested_recursion_refuted as [A [B [C [D _]]]]. repeat split; assumption. Qed.
-Print Assumptions C05_sound_directive_recursive_nested_refuted.
+Theorem C05_sound_directive_recursive_nested_rejected :
+  rule_ok RDirectiveRecursive Witness.w_nested = false /\ check_doc Witness.w_nested <> [] /\
+  rule_ok RDirectiveRecursive Witness.w_input_cycle_rec = false /\ check_doc Witness.w_input_cycle_rec <> [] /\
+  spec_valid Witness.w_input_cycle = true /\ check_doc Witness.w_input_cycle = [].
+Proof.
+  destruct nested_recursion_rejected as [A [B C]]. destruct input_cycle_recursion_rejected as [A' [B' C']].
+  destruct input_cycle_alone_accepted as [D E].
+  split; [exact A|]. split; [rewrite B; exact C|]. split; [exact A'|]. split; [rewrite B'; exact C'|]. split; assumption.
+Qed.
+Print Assumptions C05_sound_directive_recursive_nested_rejected.
+Theorem C05_sound_directive_args_duplicate_rejected :
+  rule_ok RDirectiveArgs Witness.w_dup_arg_ill_typed = false /\ check_doc Witness.w_dup_arg_ill_typed <> [].
+Proof. destruct dup_arg_ill_typed_rejected as [A [B C]]. split; [exact A | rewrite B; exact C]. Qed.
+Print Assumptions C05_sound_directive_args_duplicate_rejected.
 
 (** the directive-recursion search is exact on the graph it walks, and the fuel the model gives it suffices *)
 Theorem C05_directive_recursion_exact : forall doc d,
@@ -81,6 +86,10 @@ Theorem C05_recursion_fuel_enough : forall doc d e,
   In d (directives_of doc) -> In e (check_directive_recursion doc d) -> e_msg e <> EOutOfFuel.
 Proof. intros doc d e Hd He. exact (recursion_search_fuel doc d Hd e He). Qed.
 Print Assumptions C05_recursion_fuel_enough.
+
+Theorem C05_type_traversal_fuel_enough : forall doc d, next_of_fuel_ok doc d = true.
+Proof. exact next_of_fuel_enough. Qed.
+Print Assumptions C05_type_traversal_fuel_enough.
 
 (** is_subtype decides the specification's IsValidImplementationFieldType on defined types *)
 Theorem C05_is_subtype_covariant_correct : forall doc a b,
